@@ -25,6 +25,7 @@ type Env struct {
 	qdepth   int
 	isBinder bool // vars of this env are quantifier / spec-function binders
 	expanding map[string]bool
+	free      map[string]*Val // captured variables of a function literal under contract: name -> cell (or value)
 }
 
 func newEnv(c *Ctx, pkg *types.Package) *Env {
@@ -104,7 +105,7 @@ func (e *Env) resolveType(text string) (types.Type, Sort, error) {
 		return types.Typ[types.String], SStr, nil
 	case "bool":
 		return types.Typ[types.Bool], SBool, nil
-	case "V", "any":
+	case "V", "any", "interface{}":
 		return types.NewInterfaceType(nil, nil), SV, nil
 	case "Sl":
 		return nil, SSl, nil
@@ -343,8 +344,36 @@ func (e *Env) eval(x Expr) (*Val, error) {
 		if err != nil {
 			return nil, err
 		}
+		if xv.T != nil && xv.T.Sort == SSl {
+			lo := intLit(0)
+			hi := tApp(SInt, "slen", xv.T)
+			if n.Lo != nil {
+				v, err := e.eval(n.Lo)
+				if err != nil {
+					return nil, err
+				}
+				lo = v.T
+			}
+			if n.Hi != nil {
+				v, err := e.eval(n.Hi)
+				if err != nil {
+					return nil, err
+				}
+				hi = v.T
+			}
+			var elem types.Type
+			if xv.Typ != nil {
+				if st, ok := xv.Typ.Underlying().(*types.Slice); ok {
+					elem = st.Elem()
+				}
+			}
+			if elem == nil {
+				elem = types.Typ[types.Byte]
+			}
+			return &Val{T: c.subSlice(xv.T, lo, hi, elem), Typ: xv.Typ}, nil
+		}
 		if xv.T == nil || xv.T.Sort != SStr {
-			return nil, fmt.Errorf("slicing supported on strings only in contracts")
+			return nil, fmt.Errorf("slicing supported on strings and slices only in contracts")
 		}
 		lo := intLit(0)
 		hi := tApp(SInt, "len_s", xv.T)
@@ -385,6 +414,13 @@ func (e *Env) evalIdent(name string) (*Val, error) {
 	}
 	if v, ok := e.lookupVar(name); ok {
 		return v, nil
+	}
+	if fv, ok := e.free[name]; ok {
+		// captured by reference: the cell's current content
+		if p, isPtr := fv.Typ.Underlying().(*types.Pointer); isPtr && fv.T != nil {
+			return c.loadObj(e.st, fv.T, p.Elem()), nil
+		}
+		return fv, nil
 	}
 	if le, ok := e.lookupLet(name); ok {
 		if e.expanding == nil {
@@ -843,10 +879,11 @@ func (e *Env) evalIndex(n *EIndex) (*Val, error) {
 			if err != nil {
 				return nil, err
 			}
-			_ = mi
+			// Go semantics: the zero value when the key is absent
+			ok := tSelect(tSelect(c.get(e.st, mi.dom, mi.domSort), x.T), i.T)
 			v := buildVal(u.Elem(), func(l leaf) *Term {
 				key, ks := c.mapValKey(x.Typ, l)
-				return tSelect(tSelect(c.get(e.st, key, ks), x.T), i.T)
+				return tIte(ok, tSelect(tSelect(c.get(e.st, key, ks), x.T), i.T), c.zeroTerm(l.sort))
 			})
 			return v, nil
 		case *types.Slice:
